@@ -370,6 +370,13 @@ class Engine(
 
     def append_binary(self, operation: BinaryOperation, lhs: Relation, rhs: Relation) -> Select:
         # Docstring inherited.
+        for operand in (lhs, rhs):
+            # Check this before conforming: an operand from another engine may
+            # hold operations this engine cannot even conform.
+            if operand.engine != self:
+                raise EngineError(
+                    f"Cannot apply {operation} in engine {self} to operand {operand} with engine {operand.engine}."
+                )
         conformed_lhs = self.conform(lhs)
         conformed_rhs = self.conform(rhs)
         return self._append_binary_to_select(operation, conformed_lhs, conformed_rhs)
